@@ -116,7 +116,7 @@ def check(ctx):
     expect_fn(ctx, "C13.4", "policy/cache-hit", "type_description::return_type_name_on_cache_hit", "Some(Ok(if(Option::is_some(Path::ident(P1.path))){%s}else{P2}))" % (NAME % 3),
               "already described: name iff the type has an ident, else the cached text", D)
     expect_fn(ctx, "C13.6", "format-flag", "description::type_description",
-              "Ok(if(P2){formatting::format_type_description(%s)}else{%s})" % (("Transformer::resolve(Transformer::new(description::ty_description,type_description::return_type_name,type_description::return_type_name_on_cache_hit,(),P1),P0)?",) * 2),
+              "if(P2){Ok(formatting::format_type_description(%s?))}else{%s}" % (("Transformer::resolve(Transformer::new(description::ty_description,type_description::return_type_name,type_description::return_type_name_on_cache_hit,(),P1),P0)",) * 2),
               "result = resolve(id); the formatter is applied to it iff `format`", D)
     # `the formatted description equals the unformatted one up to whitespace`: the formatter copies every character exactly once and
     # adds whitespace only (the instances of C15 that carry this clause, evaluated here for C13)
